@@ -75,12 +75,13 @@ def wfBodyProblems (ctx : BodyCtx) (b : Body) : List String :=
     | .decl ty name rhs =>
         let p1 := if declared.contains name || pre.contains name then [s!"{name} declared twice"] else []
         let p2 := if cKeywords.contains name then [s!"{name} is a C keyword"] else []
+        let p2c := if isPluginConst name then [s!"{name} is a plugin constant"] else []
         let p3 := if knownDeclTypes.contains ty then [] else [s!"declaration of {name} with unexpected type '{ty}'"]
         let bad := rhs.uses.filter (fun (x, _) => !(declared.contains x || pre.contains x || isPluginConst x))
         let p4 := bad.map (fun (x, _) => s!"identifier {x} used in the initialiser of {name} before/without declaration")
         let badH := rhs.heads.filter (fun f => !(ilHeads.contains f || ctx.callees.contains f))
         let p5 := badH.map (fun f => s!"unknown function {f} in the initialiser of {name}")
-        (name :: declared, probs ++ p1 ++ p2 ++ p3 ++ p4 ++ p5, seenRet)
+        (name :: declared, probs ++ p1 ++ p2 ++ p2c ++ p3 ++ p4 ++ p5, seenRet)
   let (_, probs, seenRet) := items.foldl step ([], [], false)
   if seenRet then probs else probs ++ ["no final return"]
 
